@@ -25,6 +25,10 @@ def load_pool():
     return mod
 
 
+class Abort(BaseException):
+    """an interruption that is not an Exception (KeyboardInterrupt, a gevent-style timeout) cutting the holder short"""
+
+
 class Obj:
     """a pooled connection; `_last_used` is a property so that every idle test of the pool (its only reader) is recorded"""
     answers = None        # list shared with the run: 'f' fresh / 'e' expired / 'c' creation failed
@@ -129,7 +133,11 @@ def run_schedule(mod, max_size, programs, plan, opcodes=False, idle=None, fail_c
                         holding[tid] = None
                         if op == "useFail":
                             raise OSError("boom")
+                        if op == "useAbort":
+                            raise Abort()
                 except OSError:
+                    pass
+                except Abort:
                     pass
                 except RuntimeError as e:
                     if "Too many objects" not in str(e):
@@ -191,6 +199,8 @@ def run_pc_schedule(mod, base, max_size, programs, plan):
                 viol.append(f"during I/O: connection {o.i} is held by two threads {sorted(users)}")
             if self.closed:
                 raise OSError(9, "closed")
+            if failing.get(tid) == "abort":
+                raise Abort()
             if failing.get(tid):
                 raise OSError(32, "broken pipe")
             if data.startswith(b"get"):
@@ -284,17 +294,19 @@ def run_pc_schedule(mod, base, max_size, programs, plan):
     def body(tid, prog):
         def f():
             for op in prog:
-                failing[tid] = op in ("useFail", "quitFail")
+                failing[tid] = "abort" if op == "useAbort" else op in ("useFail", "quitFail")
                 try:
                     if op == "clear":
                         pc.close()
                     elif op == "useOk":
                         pc.get("k")
-                    elif op == "useFail":
+                    elif op in ("useFail", "useAbort"):
                         pc.set("k", b"v", noreply=False)
                     else:
                         pc.quit()
                 except OSError:
+                    pass
+                except Abort:
                     pass
                 except RuntimeError as e:
                     if "Too many objects" not in str(e):
@@ -391,6 +403,18 @@ def main(argv):
                     if mprog:
                         lines.append(f"pool.seq max={mx} progs={','.join(mprog)} order={','.join('0' * len(mprog))} idle={','.join(sched.answers) or '-'}")
                         metas.append(("seq", case, " | ".join(e for _, e in sched.trace)))
+    # the holder is cut short by a BaseException: for the pool this is the same as a failing use (destroy); model program `useFail`
+    for prog in (["useAbort"], ["useOk", "useAbort"], ["useAbort", "useOk"], ["useAbort", "useAbort", "useOk"], ["useAbort", "clear"]):
+        for mx in (1, 2):
+            sched, viol, leak = run_schedule(mod, mx, [list(prog)], ())
+            ctx.case(("seq-abort", tuple(prog), mx))
+            ctx.count("sequential-programs")
+            case = {"programs": [list(prog)], "max_size": mx, "trace": [e for _, e in sched.trace][:40]}
+            for v in viol:
+                ctx.violation(v, case, tags=["base-exception"])
+            mprog = ["useFail" if o == "useAbort" else o for o in prog]
+            lines.append(f"pool.seq max={mx} progs={','.join(mprog)} order={','.join('0' * len(mprog))} idle={','.join('f' * 8)}")
+            metas.append(("seq", case, " | ".join(e for _, e in sched.trace)))
     # ---- (S) interleavings on the real code ------------------------------------------------------------------
     bound = 2 if ctx.thorough else 1
     progsets = [([a], [b]) for a in OPS for b in OPS]
@@ -445,7 +469,7 @@ def main(argv):
                 metas.append(("val", case, None))
     # ---- (P) the same programs through the real PooledClient methods with real Client objects in the pool -----------------------------------
     import pymemcache.client.base as base_mod
-    pc_sets = [([a], [b]) for a in OPS for b in OPS] + [(["useOk"], ["useOk"], ["useOk"]), (["quitOk"], ["useOk"], ["useOk"]), (["quitFail"], ["useOk"], ["useOk"]),
+    pc_sets = [([a], [b]) for a in OPS for b in OPS] + [(["useAbort"], ["useOk"]), (["useAbort", "useOk"], ["useOk"]), (["useOk"], ["useAbort"]), (["useAbort"], ["useAbort"]), (["useOk"], ["useOk"], ["useOk"]), (["quitOk"], ["useOk"], ["useOk"]), (["quitFail"], ["useOk"], ["useOk"]),
                                                           (["useOk", "useOk"], ["useOk", "quitOk"]), (["useFail"], ["useOk"], ["clear"])]
     for programs in pc_sets:
         programs = [list(p_) for p_ in programs]
@@ -480,7 +504,8 @@ def main(argv):
                         ctx.violation(f"socket(s) {leak} opened by a holder after clear() closed its client were never closed", case, tags=["clear-vs-holder"])
                     else:
                         ctx.violation(f"socket(s) {leak} were never closed and belong to no idle pooled client", case, tags=["pooled-client-level", "leak"])
-                lines.append(f"pool.validate max={mx} progs={';'.join(','.join(p_) for p_ in programs)} trace={trace_tok(sched.trace)}")
+                mprogs_ = [["useFail" if o_ == "useAbort" else o_ for o_ in p_] for p_ in programs]
+                lines.append(f"pool.validate max={mx} progs={';'.join(','.join(p_) for p_ in mprogs_)} trace={trace_tok(sched.trace)}")
                 metas.append(("val", case, None))
     if ctx.thorough:
         # opcode-level yield points, random single pre-emptions
